@@ -175,10 +175,25 @@ async fn run_async(case: &Case, fx: &Fixture, vname: &str) -> CaseResult {
     };
     let text1 = displayable(back.as_ref()).indent(true).to_string();
     if text0 != text1 {
-        if strip_union_coercion_projections(&text1).trim_end() == text0.trim_end() {
-            return known_violation(&["union-exec-decode-readds-coercion-projection"], format!("decoded plan differs in its textual form only by coercing projections under a union: {}{}\n  decoded plan:\n{text1}", first_diff(&text0, &text1), ctxt())).labels(labels);
+        // normalise away the two recorded text-level findings, see what is left
+        let mut tags: Vec<&'static str> = vec![];
+        let (mut a, mut b) = (text0.clone(), text1.clone());
+        let (sa, sb) = (strip_union_coercion_projections(&a), strip_union_coercion_projections(&b));
+        if sb != b {
+            tags.push("union-exec-decode-readds-coercion-projection");
+            a = sa;
+            b = sb;
         }
-        return CaseResult::violation(format!("decoded plan differs in its textual form: {}{}\n  decoded plan:\n{text1}", first_diff(&text0, &text1), ctxt())).labels(labels);
+        let (pa, pb) = (strip_parquet_reorder_options(&a), strip_parquet_reorder_options(&b));
+        if pa.trim_end() != a.trim_end() && pb.trim_end() == b.trim_end() {
+            tags.push("parquet-source-reorder-options-dropped");
+            a = pa;
+            b = pb;
+        }
+        if a.trim_end() == b.trim_end() && !tags.is_empty() {
+            return known_violation(&tags, format!("decoded plan differs in its textual form only by recorded findings: {}{}\n  decoded plan:\n{text1}", first_diff(&text0, &text1), ctxt())).labels(labels);
+        }
+        return CaseResult::violation(format!("decoded plan differs in its textual form: {}{}\n  decoded plan:\n{text1}", first_diff(&a, &b), ctxt())).labels(labels);
     }
     let (mut n0, mut n1) = (vec![], vec![]);
     nodes(&plan, &mut n0);
